@@ -19,7 +19,8 @@ Inductive ccase :=
 | CEpub (v : epub_view) (impl : bool)                  (* _is_epub_encrypted *)
 | CPdf (v : pdf_view) (impl : bool)                    (* read_pdf raised the encrypted error *)
 | CPad (bs : nat) (d : bytes) (impl : bytes)           (* _pkcs7_pad *)
-| CUnpad (bs : nat) (d : bytes) (impl : option bytes). (* _pkcs7_unpad; None = ValueError *)
+| CUnpad (bs : nat) (d : bytes) (impl : option bytes)  (* _pkcs7_unpad; None = ValueError *)
+| CAtt (l : list att) (n : nat) (enc : bool).         (* one invocation of iterate_supported_attachments *)
 
 Definition doc_code (r : doc_res) : N := match r with DocEncrypted => 0 | DocNotDoc => 1 | DocContinue => 2 end.
 Definition zout_code (o : zout) : N := match o with ZDone => 0 | ZEncrypted => 1 | ZFailed => 2 end.
@@ -39,6 +40,7 @@ Definition corr_case_gen (legacy : bool) (c : ccase) : bool :=
   | CEpub v impl => Bool.eqb (epub_detect_gen legacy v) impl
   | CPdf v impl => Bool.eqb (pdf_detect v) impl
   | CPad bs d impl => str_eqb (pkcs7_pad bs d) impl
+  | CAtt l n enc => let '(k, e) := att_run l in Nat.eqb k n && Bool.eqb e enc
   | CUnpad bs d impl =>
       match pkcs7_unpad bs d, impl with
       | UOk x, Some y => str_eqb x y
